@@ -18,9 +18,9 @@
 (*                                                                         *)
 (* The monitor never constrains the semantics: it latches records in `bad`  *)
 (* and the reporting invariant Emit (always TRUE) prints every terminal     *)
-(* state - decisions, the (occurrence, tag) event sequence, outcome, bad -  *)
-(* so that the harness can replay it on CPython (model validation) and      *)
-(* turn `bad` into findings.                                                *)
+(* state - decisions, the (occurrence, tag) event sequence (its length and  *)
+(* a rolling hash unless Full), outcome, bad - so that the harness can      *)
+(* replay it on CPython (model validation) and turn `bad` into findings.    *)
 (***************************************************************************)
 EXTENDS Naturals, Sequences, FiniteSets, TLC, Json, IOUtils, TypeTables
 
@@ -156,7 +156,9 @@ Strip(evs) == [i \in 1..Len(evs) |-> [o |-> evs[i].o, t |-> evs[i].t]]
 (* on as closure types speaks about its own names.                                *)
 HasAny(ts)  == \E i \in 1..Len(ts) : \E j \in 1..Len(ts[i]) : ts[i][j] = "any"
 Unknown(a)  == ~HasClaim(a) \/ HasAny(ClaimOf(a))
-UnkArgs(o)  == \E j \in 1..Len(EX(o).args) : Unknown(EX(o).args[j])
+UnkArgs(o)  == EX(o).kind \in {"bin", "cmp", "un", "sub", "tuple"}      \* (a list display / external call is typed whatever its operands)
+               /\ \E j \in 1..Len(EX(o).args) : Unknown(EX(o).args[j])
+UnkSrc(e)   == e # 0 /\ (Unknown(e) \/ UnkArgs(e))       \* the value bound has no (trustworthy) claim
 BadRec(clause, o, t, nm, c, act) ==
   LET w == IF c = 0 THEN W("na", TRUE, act, 0, FALSE) ELSE cells[c].w IN
   [clause |-> clause, o |-> o, t |-> t, name |-> nm, wk |-> w.kind, wc |-> w.claimed, wnode |-> w.node, wnl |-> w.nl,
@@ -200,13 +202,14 @@ DoWrites(cl, es, env, ws, kind, dirty, n, b, evs, src) ==
            viol == HasClaim(w.o) /\ ~Covers(ClaimOf(w.o), w.v.t)
            b1 == IF viol /\ ~dirty
                  THEN b \cup {[clause |-> "types", o |-> w.o, t |-> w.v.t, name |-> w.name, wk |-> kind, wc |-> TRUE,
-                               wnode |-> n, wnl |-> FALSE, wrel |-> "store", unk |-> src # 0 /\ Unknown(src),
+                               wnode |-> n, wnl |-> FALSE, wrel |-> "store", unk |-> UnkSrc(src),
                                clo |-> FALSE, cshadow |-> FALSE]}
                  ELSE b
            e1 == Append(evs, [o |-> w.o, t |-> w.v.t]) IN
        IF w.name = "" THEN DoWrites(cl, es, env, Tail(ws), kind, dirty \/ viol, n, b1, e1, src)
        ELSE LET c == CellOf(es, env, w.name)
-                cell == [v |-> w.v, w |-> W(kind, HasClaim(w.o), env, n, es[env].cellOf[w.name] = 0), taint |-> dirty \/ viol] IN
+                cell == [v |-> w.v, w |-> W(kind, HasClaim(w.o) /\ ~UnkSrc(src), env, n, es[env].cellOf[w.name] = 0),
+                         taint |-> dirty \/ viol] IN
             DoWrites([cl EXCEPT ![c] = cell], es, env, Tail(ws), kind, dirty, n, b1, e1, src)
 
 (* the bindings an assignment target performs for value v *)
